@@ -3,7 +3,19 @@
    holding one replicated volume: after every upload / delete / replica fault
    the driver records, per key, what every replica holds (event "snap": the
    needle read from each replica's own store and the client's HTTP view of that
-   replica).  State = the layer-A variables of ReplWrite plus the volume TTL. *)
+   replica).  State = the layer-A variables of ReplWrite plus the volume TTL.
+
+   An upload event carries the way it entered (via = "mp": multipart POST typed
+   by the driver; "reader" / "breader": operation.Upload with a plain reader /
+   a util.BytesReader; "ereader": operation.Upload with a reader that fails half
+   way; "data": operation.UploadData) and cipher (client-side
+   encryption inside operation.Upload or UploadData).  Per replica the driver records, next to
+   the fields of the statement: ptok = the pair set the stored pairs are (token
+   lookup, header names compared without case), dec = "k<n>" when the stored bytes
+   decrypt with the n-th key the uploads of this file id returned in this
+   execution (d and the HTTP view hd are then the decrypted bytes; the upload
+   event carries kid = the name of the key its result carried), ct = hash token
+   of the stored ciphertext ("" when dec = "plain"). *)
 EXTENDS ReplWrite, TraceKit
 VARIABLES vttl
 vars == <<avars, vttl>>
@@ -12,9 +24,10 @@ tvars == <<vars, kitvars>>
 (* the compared part of an observation: everything the statement lists, plus what a
    client that GETs the fid from that replica sees (status and decoded body) *)
 Proj(o) == [st |-> o.st, c |-> o.c, d |-> o.d, name |-> o.name, mime |-> o.mime, pairs |-> o.pairs,
-            lm |-> o.lm, ttl |-> o.ttl, hst |-> o.hst, hd |-> o.hd]
+            lm |-> o.lm, ttl |-> o.ttl, hst |-> o.hst, hd |-> o.hd, ptok |-> o.ptok, dec |-> o.dec, ct |-> o.ct]
 NoVol == [st |-> "novol", c |-> "", d |-> ""]
-Gone == [st |-> "gone", c |-> "", d |-> "", name |-> "", mime |-> "", pairs |-> "", lm |-> "", ttl |-> "", hst |-> 404, hd |-> ""]
+Gone == [st |-> "gone", c |-> "", d |-> "", name |-> "", mime |-> "", pairs |-> "", lm |-> "", ttl |-> "", hst |-> 404, hd |-> "",
+         ptok |-> "p0", dec |-> "plain", ct |-> ""]
 ObsFn == [r \in AllR |-> IF r + 1 <= Len(Ev.obs) THEN Proj(Ev.obs[r + 1]) ELSE NoVol]
 
 TraceInit == AInit(2, Gone) /\ vttl = "" /\ KitInit
@@ -24,10 +37,19 @@ TraceReset ==
   /\ val' = [r \in AllR |-> [k \in AllK |-> Gone]]
   /\ need' = [k \in AllK |-> FALSE]
   /\ alt' = [r \in AllR |-> [k \in AllK |-> {}]]
+  /\ want' = [k \in AllK |-> NoWant]
   /\ vttl' = Ev.vttl
 TraceSkip == SkipStep /\ UNCHANGED vars
 
-TUpload == IsEvent("upload") /\ Strict /\ AUpload(Ev.to, Ev.k, Ev.c, Ev.d, vttl, Ev.res) /\ UNCHANGED vttl
+(* what a successful upload promises beyond the decoded content: the pairs the client sent (an encrypted upload
+   sends none: doUploadData keeps name, mime and pairs out of an encrypted needle, the statement is silent
+   on them), the client's own timestamp when it gave one, and that an encrypted upload is stored encrypted with the
+   returned key on every replica *)
+OldTs == "1600000000"
+UploadFix ==
+  (IF Ev.cipher THEN {<<"dec", Ev.kid>>} ELSE {<<"ptok", Ev.pairs>>})
+  \cup (IF Ev.ts = "old" THEN {<<"lm", OldTs>>} ELSE {})
+TUpload == IsEvent("upload") /\ Strict /\ AUpload(Ev.to, Ev.k, Ev.c, Ev.d, vttl, Ev.res, Ev.cipher, UploadFix) /\ UNCHANGED vttl
 TDelete == IsEvent("delete") /\ Strict /\ ADelete(Ev.to, Ev.k, Ev.c, Ev.res) /\ UNCHANGED vttl
 TRace == IsEvent("race") /\ Strict /\ ARace(Ev.k, Ev.c, Ev.d1, Ev.d2, Ev.res1, Ev.res2) /\ UNCHANGED vttl
 TFault == IsEvent("fault") /\ Strict /\ AFault(Ev.kind, Ev.r, Ev.res) /\ UNCHANGED vttl
